@@ -1,2 +1,566 @@
-(* Proofs/NewickProofsC.v *)
+(* Proofs/NewickProofsC.v — C05: the reader's state machine on written trees
+   (round trip), sequences of trees, totality (no panic), condensed output. *)
 From Bio Require Import Base.
+From Bio.Model Require Import Newick.
+From Bio.Spec Require Import NewickSpec.
+From Bio.Proofs Require Import NewickProofs NewickProofsB.
+
+Definition cfg (st : rstate) (top : frame) (below : list frame) (any : bool) (input : bytes) : config :=
+  {| c_state := st; c_top := top; c_below := below; c_any := any; c_input := input |}.
+Definition mk (n : bytes) (d : F) (ks : list tree) : frame :=
+  {| fr_name := n; fr_dist := d; fr_kids := ks |}.
+
+Definition is_closer (x : N) : bool := (x =? 44) || (x =? 41) || (x =? 59).
+
+Lemma closer_punct x : is_closer x = true -> is_punct x = true.
+Proof.
+  unfold is_closer, is_punct. rewrite !Bool.orb_true_iff.
+  intros [[H|H]|H]; rewrite H; auto 10.
+Qed.
+
+Section Machine.
+Variable o : foracle.
+
+(* ---- single iterations ---------------------------------------------------- *)
+Lemma step_open tm f b ra rest :
+  read_step o tm (cfg BeforeNode f b ra (40 :: rest))
+  = Continue (cfg BeforeNode fresh (f :: b) true rest).
+Proof.
+  unfold read_step, cfg. cbn [c_input c_state c_top c_below c_any].
+  rewrite next_token_punct by reflexivity. reflexivity.
+Qed.
+
+Lemma step_close tm st f p b ra rest : st <> AfterColon ->
+  read_step o tm (cfg st f (p :: b) ra (41 :: rest))
+  = Continue (cfg AfterChildren (add_kid (close f) p) b true rest).
+Proof.
+  intros H. unfold read_step, cfg. cbn [c_input c_state c_top c_below c_any].
+  rewrite next_token_punct by reflexivity. destruct st; try reflexivity. congruence.
+Qed.
+
+Lemma step_comma tm st f p b ra rest : st <> AfterColon ->
+  read_step o tm (cfg st f (p :: b) ra (44 :: rest))
+  = Continue (cfg BeforeNode fresh (add_kid (close f) p :: b) true rest).
+Proof.
+  intros H. unfold read_step, cfg. cbn [c_input c_state c_top c_below c_any].
+  rewrite next_token_punct by reflexivity. destruct st; try reflexivity. congruence.
+Qed.
+
+Lemma step_colon tm st f b ra rest : st <> AfterColon -> st <> AfterDist ->
+  read_step o tm (cfg st f b ra (58 :: rest)) = Continue (cfg AfterColon f b true rest).
+Proof.
+  intros H1 H2. unfold read_step, cfg. cbn [c_input c_state c_top c_below c_any].
+  rewrite next_token_punct by reflexivity. destruct st; try reflexivity; congruence.
+Qed.
+
+Lemma step_semi tm st f ra rest : st <> AfterColon ->
+  read_step o tm (cfg st f [] ra (59 :: rest)) = Done (ROk (close f) rest).
+Proof.
+  intros H. unfold read_step, cfg. cbn [c_input c_state c_top c_below c_any].
+  rewrite next_token_punct by reflexivity. destruct st; try reflexivity. congruence.
+Qed.
+
+Lemma step_word_name tm st f b ra input tok rest :
+  next_token input tm = TokOk tok rest -> is_word tok = true ->
+  st = BeforeNode \/ st = AfterChildren ->
+  read_step o tm (cfg st f b ra input)
+  = Continue (cfg AfterName (set_name (name_from_text tok) f) b true rest).
+Proof.
+  intros Ht Hw Hst. unfold read_step, cfg. cbn [c_input c_state c_top c_below c_any].
+  rewrite Ht. destruct (word_not_punct tok Hw) as (H1 & H2 & H3 & H4 & H5).
+  rewrite H1, H2, H3, H4, H5. destruct Hst; subst; reflexivity.
+Qed.
+
+Lemma step_word_dist tm f b ra input tok rest d :
+  next_token input tm = TokOk tok rest -> is_word tok = true -> parseF o tok = Some d ->
+  read_step o tm (cfg AfterColon f b ra input)
+  = Continue (cfg AfterDist (set_dist d f) b true rest).
+Proof.
+  intros Ht Hw Hp. unfold read_step, cfg. cbn [c_input c_state c_top c_below c_any].
+  rewrite Ht. destruct (word_not_punct tok Hw) as (H1 & H2 & H3 & H4 & H5).
+  rewrite H1, H2, H3, H4, H5. cbn [st_eqb orb negb]. rewrite Hp. reflexivity.
+Qed.
+
+(* ---- runs ------------------------------------------------------------------ *)
+Inductive steps (tm : term) : config -> config -> Prop :=
+| steps_refl c : steps tm c c
+| steps_cons c c' c'' : read_step o tm c = Continue c' -> steps tm c' c'' -> steps tm c c''.
+
+Lemma steps_trans tm a b c : steps tm a b -> steps tm b c -> steps tm a c.
+Proof. induction 1; intros; [assumption|]. eapply steps_cons; eauto. Qed.
+
+Lemma steps_one tm c c' : read_step o tm c = Continue c' -> steps tm c c'.
+Proof. intros H. eapply steps_cons; [exact H | apply steps_refl]. Qed.
+
+(* every continuing iteration consumes input *)
+Lemma read_step_consumes tm c c' : read_step o tm c = Continue c' ->
+  (length (c_input c') < length (c_input c))%nat.
+Proof.
+  unfold read_step. destruct (next_token (c_input c) tm) as [tok rest| |] eqn:Ht.
+  - apply next_token_consumes in Ht. intros H.
+    repeat match type of H with
+    | (if ?b then _ else _) = _ => destruct b
+    | match ?l with [] => _ | _ :: _ => _ end = _ => destruct l
+    | match ?x with Some _ => _ | None => _ end = _ => destruct x
+    end; inversion H; subst; exact Ht.
+  - destruct (c_any c); discriminate.
+  - discriminate.
+Qed.
+
+Lemma read_step_done_rest tm c t rest : read_step o tm c = Done (ROk t rest) ->
+  (length rest < length (c_input c))%nat.
+Proof.
+  unfold read_step. destruct (next_token (c_input c) tm) as [tok rest'| |] eqn:Ht.
+  - apply next_token_consumes in Ht. intros H.
+    repeat match type of H with
+    | (if ?b then _ else _) = _ => destruct b
+    | match ?l with [] => _ | _ :: _ => _ end = _ => destruct l
+    | match ?x with Some _ => _ | None => _ end = _ => destruct x
+    end; inversion H; subst; exact Ht.
+  - destruct (c_any c); discriminate.
+  - discriminate.
+Qed.
+
+(* panic("unexpected state") is unreachable *)
+Lemma read_step_no_panic tm c : read_step o tm c <> Done RPanic.
+Proof.
+  unfold read_step. destruct (next_token (c_input c) tm) as [tok rest| |].
+  - destruct (c_state c); cbn [st_eqb negb orb];
+      repeat match goal with
+      | |- (if ?b then _ else _) <> _ => destruct b
+      | |- match ?l with [] => _ | _ :: _ => _ end <> _ => destruct l
+      | |- match ?x with Some _ => _ | None => _ end <> _ => destruct x
+      end; discriminate.
+  - destruct (c_any c); discriminate.
+  - discriminate.
+Qed.
+
+Lemma read_loop_no_panic tm : forall fuel c,
+  (length (c_input c) < fuel)%nat -> read_loop o fuel tm c <> RPanic.
+Proof.
+  induction fuel as [|f IH]; intros c Hlen; [lia|].
+  cbn [read_loop]. destruct (read_step o tm c) as [c'|r] eqn:E.
+  - apply IH. apply read_step_consumes in E. lia.
+  - intros ->. exact (read_step_no_panic tm c E).
+Qed.
+
+Lemma read_loop_rest tm : forall fuel c t rest,
+  read_loop o fuel tm c = ROk t rest -> (length rest < length (c_input c))%nat.
+Proof.
+  induction fuel as [|f IH]; intros c t rest H; [discriminate|].
+  cbn [read_loop] in H. destruct (read_step o tm c) as [c'|r] eqn:E.
+  - apply IH in H. apply read_step_consumes in E. lia.
+  - subst r. exact (read_step_done_rest tm c t rest E).
+Qed.
+
+(* with enough fuel, a run can be followed *)
+Lemma steps_loop tm c c' : steps tm c c' -> forall fuel,
+  (length (c_input c) < fuel)%nat ->
+  exists fuel', (length (c_input c') < fuel')%nat /\ read_loop o fuel tm c = read_loop o fuel' tm c'.
+Proof.
+  induction 1 as [c | c c1 c2 Hs _ IH]; intros fuel Hf.
+  - exists fuel. auto.
+  - destruct fuel as [|f]; [lia|]. cbn [read_loop]. rewrite Hs.
+    apply IH. apply read_step_consumes in Hs. lia.
+Qed.
+
+Lemma steps_done tm c c' r fuel : steps tm c c' -> read_step o tm c' = Done r ->
+  (length (c_input c) < fuel)%nat -> read_loop o fuel tm c = r.
+Proof.
+  intros Hs Hd Hf. destruct (steps_loop tm c c' Hs fuel Hf) as (f' & Hf' & ->).
+  destruct f' as [|f']; [lia|]. cbn [read_loop]. rewrite Hd. reflexivity.
+Qed.
+
+(* ---- the stages of one written node ---------------------------------------- *)
+Lemma name_stage tm nm dist kids b ra y r st :
+  st = BeforeNode \/ st = AfterChildren -> is_punct y = true ->
+  exists st' ra', (st' = st \/ st' = AfterName) /\
+    steps tm (cfg st (mk [] dist kids) b ra (name_to_text nm ++ y :: r))
+             (cfg st' (mk nm dist kids) b ra' (y :: r)).
+Proof.
+  intros Hst Hy. destruct nm as [|c nm'].
+  - exists st, ra. split; [left; reflexivity | apply steps_refl].
+  - assert (Hne : name_to_text (c :: nm') <> []).
+    { intros E. apply (proj1 (name_text_nil _)) in E. discriminate E. }
+    exists AfterName, true. split; [right; reflexivity|]. apply steps_one.
+    rewrite (step_word_name tm st _ b ra _ (name_to_text (c :: nm')) (y :: r)).
+    + rewrite name_roundtrip. reflexivity.
+    + apply name_one_token; assumption.
+    + apply name_text_word. exact Hne.
+    + exact Hst.
+Qed.
+
+Lemma dist_stage tm nm d kids b ra x r st :
+  st <> AfterColon -> st <> AfterDist -> is_punct x = true -> float_ok o d ->
+  steps tm (cfg st (mk nm zeroF kids) b ra (58 :: fmtF o d ++ x :: r))
+           (cfg AfterDist (mk nm d kids) b true (x :: r)).
+Proof.
+  intros H1 H2 Hx (Hparse & Hne & Hclean).
+  eapply steps_cons; [apply step_colon; assumption|].
+  apply steps_one.
+  rewrite (step_word_dist tm _ b true _ (fmtF o d) (x :: r) d).
+  - reflexivity.
+  - apply tok_word_punct; [apply clean_delims_plain; exact Hclean | exact Hne | exact Hx].
+  - apply plain_word; [apply clean_delims_plain; exact Hclean | exact Hne].
+  - exact Hparse.
+Qed.
+
+Lemma tail_stage tm nm d kids b ra x r st :
+  st = BeforeNode \/ st = AfterChildren -> is_punct x = true ->
+  (is_zeroF d = false -> float_ok o d) ->
+  exists st' ra', st' <> AfterColon /\
+    steps tm (cfg st (mk [] zeroF kids) b ra
+                (name_to_text nm ++ (if is_zeroF d then [] else 58 :: fmtF o d) ++ x :: r))
+             (cfg st' (mk nm (norm_dist d) kids) b ra' (x :: r)).
+Proof.
+  intros Hst Hx Hd. unfold norm_dist. destruct (is_zeroF d) eqn:Ez.
+  - destruct (name_stage tm nm zeroF kids b ra x r st Hst Hx) as (st' & ra' & Hst' & Hs).
+    exists st', ra'. split; [|exact Hs].
+    destruct Hst' as [->| ->]; [destruct Hst as [->| ->]|]; discriminate.
+  - destruct (name_stage tm nm zeroF kids b ra 58 (fmtF o d ++ x :: r) st Hst eq_refl)
+      as (st' & ra' & Hst' & Hs).
+    exists AfterDist, true. split; [discriminate|].
+    eapply steps_trans; [exact Hs|].
+    apply dist_stage; [| | exact Hx | exact (Hd eq_refl)];
+      destruct Hst' as [->| ->]; try discriminate; destruct Hst as [->| ->]; discriminate.
+Qed.
+
+(* ---- whole trees -------------------------------------------------------------- *)
+Definition frame_of (t : tree) : frame :=
+  mk (t_name t) (norm_dist (t_dist t)) (rev (map norm (t_children t))).
+
+Lemma close_frame_of t : close (frame_of t) = norm t.
+Proof.
+  destruct t as [nm d cs]. unfold close, frame_of, mk. cbn [fr_name fr_dist fr_kids t_name t_dist t_children norm].
+  rewrite rev_involutive. reflexivity.
+Qed.
+
+Definition add_kids (ts : list tree) (f : frame) : frame := fold_left (fun f t => add_kid t f) ts f.
+
+Lemma add_kids_mk : forall ts n d ks, add_kids ts (mk n d ks) = mk n d (rev ts ++ ks).
+Proof.
+  induction ts as [|t ts IH]; intros n d ks; [reflexivity|].
+  cbn [add_kids fold_left]. change (add_kid t (mk n d ks)) with (mk n d (t :: ks)).
+  fold (add_kids ts (mk n d (t :: ks))). rewrite IH. cbn [rev]. rewrite <- app_assoc. reflexivity.
+Qed.
+
+Lemma add_kids_fresh ts : add_kids ts fresh = mk [] zeroF (rev ts).
+Proof. change fresh with (mk [] zeroF []). rewrite add_kids_mk, app_nil_r. reflexivity. Qed.
+
+Fixpoint kids_rest (l : list tree) : bytes :=
+  match l with [] => [] | c :: r => 44 :: newick_text o c ++ kids_rest r end.
+
+Lemma newick_text_leaf nm d :
+  newick_text o (Node nm d []) = name_to_text nm ++ (if is_zeroF d then [] else 58 :: fmtF o d).
+Proof. reflexivity. Qed.
+
+Lemma newick_text_inner nm d c0 cr :
+  newick_text o (Node nm d (c0 :: cr))
+  = (40 :: newick_text o c0 ++ kids_rest cr ++ [41])
+    ++ name_to_text nm ++ (if is_zeroF d then [] else 58 :: fmtF o d).
+Proof. reflexivity. Qed.
+
+Definition tree_reads (t : tree) : Prop :=
+  forall tm b ra x r, is_closer x = true ->
+  exists st' ra', st' <> AfterColon /\
+    steps tm (cfg BeforeNode fresh b ra (newick_text o t ++ x :: r))
+             (cfg st' (frame_of t) b ra' (x :: r)).
+
+Lemma kids_stage tm : forall l c0 p b ra rest,
+  tree_reads c0 -> Forall tree_reads l ->
+  exists ra',
+    steps tm (cfg BeforeNode fresh (p :: b) ra (newick_text o c0 ++ kids_rest l ++ 41 :: rest))
+             (cfg AfterChildren (add_kids (map norm (c0 :: l)) p) b ra' rest).
+Proof.
+  induction l as [|c1 l IH]; intros c0 p b ra rest H0 HF.
+  - cbn [kids_rest app].
+    destruct (H0 tm (p :: b) ra 41 rest eq_refl) as (st' & ra' & Hst' & Hs).
+    exists true. eapply steps_trans; [exact Hs|]. apply steps_one.
+    rewrite (step_close tm st' _ p b ra' rest Hst'), close_frame_of. reflexivity.
+  - inversion HF as [|? ? H1 HF']; subst.
+    cbn [kids_rest]. rewrite <- app_comm_cons, <- app_assoc.
+    destruct (H0 tm (p :: b) ra 44 (newick_text o c1 ++ kids_rest l ++ 41 :: rest) eq_refl)
+      as (st' & ra' & Hst' & Hs).
+    destruct (IH c1 (add_kid (norm c0) p) b true rest H1 HF') as (ra'' & Hs').
+    exists ra''. eapply steps_trans; [exact Hs|].
+    eapply steps_cons; [apply step_comma; exact Hst'|].
+    rewrite close_frame_of. exact Hs'.
+Qed.
+
+Lemma Forall_flat_map' {A B} (P : B -> Prop) (f : A -> list B) l :
+  Forall P (flat_map f l) -> Forall (fun x => Forall P (f x)) l.
+Proof.
+  induction l as [|a l IH]; intros H; [constructor|].
+  cbn [flat_map] in H. apply Forall_app in H. destruct H as [Ha Hl].
+  constructor; [exact Ha | exact (IH Hl)].
+Qed.
+
+Lemma floats_ok_node nm d cs : floats_ok o (Node nm d cs) ->
+  (is_zeroF d = false -> float_ok o d) /\ Forall (floats_ok o) cs.
+Proof.
+  unfold floats_ok. cbn [dists]. intros H. inversion H as [|? ? Hd Hr]; subst.
+  split; [exact Hd|]. apply Forall_flat_map' in Hr. exact Hr.
+Qed.
+
+Lemma all_trees_read : forall t, floats_ok o t -> tree_reads t.
+Proof.
+  induction t as [nm d cs HF] using tree_ind'. intros Hok.
+  apply floats_ok_node in Hok. destruct Hok as [Hd Hcs].
+  assert (HR : Forall tree_reads cs).
+  { rewrite Forall_forall in *. intros c Hc. apply (HF c Hc). apply (Hcs c Hc). }
+  intros tm b ra x r Hx. pose proof (closer_punct x Hx) as Hp.
+  unfold frame_of. cbn [t_name t_dist t_children].
+  destruct cs as [|c0 cr].
+  - rewrite newick_text_leaf, <- app_assoc.
+    apply (tail_stage tm nm d [] b ra x r BeforeNode (or_introl eq_refl) Hp Hd).
+  - rewrite newick_text_inner.
+    inversion HR as [|? ? H0 HR']; subst.
+    destruct (kids_stage tm cr c0 fresh b true
+                (name_to_text nm ++ (if is_zeroF d then [] else 58 :: fmtF o d) ++ x :: r) H0 HR')
+      as (ra1 & Hs1).
+    rewrite add_kids_fresh in Hs1.
+    destruct (tail_stage tm nm d (rev (map norm (c0 :: cr))) b ra1 x r AfterChildren
+                (or_intror eq_refl) Hp Hd) as (st' & ra' & Hst' & Hs2).
+    exists st', ra'. split; [exact Hst'|].
+    eapply steps_cons.
+    + rewrite <- !app_assoc, <- app_comm_cons. apply step_open.
+    + eapply steps_trans; [|exact Hs2].
+      rewrite <- !app_assoc. cbn [app]. exact Hs1.
+Qed.
+
+(* ---- read_tree on a written tree ------------------------------------------------ *)
+Lemma read_step_skip_ws tm st f b ra ws s : ws_string ws ->
+  read_step o tm (cfg st f b ra (ws ++ s)) = read_step o tm (cfg st f b ra s).
+Proof.
+  intros H. unfold read_step, cfg. cbn [c_input c_state c_top c_below c_any].
+  rewrite (next_token_skip_ws ws s tm H). reflexivity.
+Qed.
+
+Lemma read_tree_marshal tm t ws rest : ws_string ws -> floats_ok o t ->
+  read_tree o (ws ++ marshal o t ++ rest) tm = ROk (norm t) rest.
+Proof.
+  intros Hws Hok. unfold read_tree, init_config, marshal.
+  fold (cfg BeforeNode fresh [] false (ws ++ (newick_text o t ++ [59]) ++ rest)).
+  cbn [read_loop]. rewrite (read_step_skip_ws tm _ _ _ _ ws _ Hws).
+  rewrite <- app_assoc. cbn [app].
+  destruct (all_trees_read t Hok tm [] false 59 rest eq_refl) as (st' & ra' & Hst' & Hs).
+  change (match read_step o tm (cfg BeforeNode fresh [] false (newick_text o t ++ 59 :: rest)) with
+          | Continue c' => read_loop o (length (ws ++ newick_text o t ++ 59 :: rest)) tm c'
+          | Done r => r end)
+    with (read_loop o (S (length (ws ++ newick_text o t ++ 59 :: rest))) tm
+            (cfg BeforeNode fresh [] false (newick_text o t ++ 59 :: rest))).
+  rewrite (steps_done tm _ _ (ROk (close (frame_of t)) rest) _ Hs (step_semi tm st' _ ra' rest Hst')).
+  - rewrite close_frame_of. reflexivity.
+  - cbn [c_input cfg]. rewrite !app_length. lia.
+Qed.
+
+Lemma read_tree_ws_eof ws : ws_string ws -> read_tree o ws TEOF = REOF.
+Proof.
+  intros H. unfold read_tree, init_config. cbn [read_loop]. unfold read_step.
+  cbn [c_input c_any]. rewrite (next_token_ws_eof ws H). reflexivity.
+Qed.
+
+(* ---- sequences of trees ---------------------------------------------------------- *)
+Lemma marshal_length t : (1 <= length (marshal o t))%nat.
+Proof. unfold marshal. rewrite app_length. cbn [length]. lia. Qed.
+
+Lemma decode_loop_seq : forall l ws0 fuel acc,
+  ws_string ws0 -> Forall (fun p => floats_ok o (fst p) /\ ws_string (snd p)) l ->
+  (length (ws0 ++ seq_text o l) < fuel)%nat ->
+  decode_loop o fuel (ws0 ++ seq_text o l) TEOF acc
+  = Ok (rev acc ++ map (fun p => Rec (norm (fst p))) l).
+Proof.
+  induction l as [|[t sep] l IH]; intros ws0 fuel acc Hws HF Hfuel.
+  - destruct fuel as [|f]; [lia|]. cbn [seq_text decode_loop map]. rewrite app_nil_r.
+    rewrite (read_tree_ws_eof ws0 Hws), app_nil_r. reflexivity.
+  - inversion HF as [|? ? [Hok Hsep] HF']; subst. cbn [fst snd] in *.
+    destruct fuel as [|f]; [lia|]. cbn [seq_text decode_loop].
+    rewrite (read_tree_marshal TEOF t ws0 (sep ++ seq_text o l) Hws Hok).
+    rewrite (IH sep f (Rec (norm t) :: acc) Hsep HF').
+    + cbn [rev map fst]. rewrite <- app_assoc. reflexivity.
+    + cbn [seq_text] in Hfuel. pose proof (marshal_length t).
+      rewrite !app_length in *. lia.
+Qed.
+
+Lemma decode_seq ws0 l :
+  ws_string ws0 -> Forall (fun p => floats_ok o (fst p) /\ ws_string (snd p)) l ->
+  decode o (ws0 ++ seq_text o l) TEOF = Ok (map (fun p => Rec (norm (fst p))) l).
+Proof.
+  intros Hws HF. unfold decode. rewrite (decode_loop_seq l ws0 _ [] Hws HF); [reflexivity | lia].
+Qed.
+
+Lemma decode_marshal t : floats_ok o t -> decode o (marshal o t) TEOF = Ok [Rec (norm t)].
+Proof.
+  intros Hok.
+  pose proof (decode_seq [] [(t, [])] (Forall_nil _)) as H.
+  cbn [seq_text app map fst] in H. rewrite app_nil_r in H. apply H.
+  constructor; [|constructor]. split; [exact Hok | constructor].
+Qed.
+
+(* ---- totality: the reader never panics -------------------------------------------- *)
+Lemma read_tree_no_panic s tm : read_tree o s tm <> RPanic.
+Proof. unfold read_tree. apply read_loop_no_panic. cbn [init_config c_input]. lia. Qed.
+
+Lemma decode_loop_no_panic tm : forall fuel s acc,
+  (length s < fuel)%nat -> decode_loop o fuel s tm acc <> Panic.
+Proof.
+  induction fuel as [|f IH]; intros s acc Hlen; [lia|].
+  cbn [decode_loop]. destruct (read_tree o s tm) as [t rest| | |] eqn:E; try discriminate.
+  - apply IH. unfold read_tree in E. apply read_loop_rest in E. cbn [init_config c_input] in E. lia.
+  - exfalso. exact (read_tree_no_panic s tm E).
+Qed.
+
+Lemma decode_no_panic s tm : decode o s tm <> Panic.
+Proof. unfold decode. apply decode_loop_no_panic. lia. Qed.
+
+(* ---- condensed ----------------------------------------------------------------------- *)
+(* parity of the number of quote bytes *)
+Fixpoint odd_quotes (s : bytes) : bool :=
+  match s with
+  | [] => false
+  | c :: r => if c =? 39 then negb (odd_quotes r) else odd_quotes r
+  end.
+
+Lemma outside_app : forall a q b,
+  outside_quotes q (a ++ b) = outside_quotes q a ++ outside_quotes (xorb q (odd_quotes a)) b.
+Proof.
+  induction a as [|c a IH]; intros q b.
+  - cbn [app outside_quotes odd_quotes]. rewrite Bool.xorb_false_r. reflexivity.
+  - cbn [app outside_quotes odd_quotes]. destruct (c =? 39).
+    + rewrite IH. f_equal. f_equal. destruct q, (odd_quotes a); reflexivity.
+    + destruct q; rewrite IH; reflexivity.
+Qed.
+
+Lemma odd_app : forall a b, odd_quotes (a ++ b) = xorb (odd_quotes a) (odd_quotes b).
+Proof.
+  induction a as [|c a IH]; intros b; cbn [app odd_quotes].
+  - destruct (odd_quotes b); reflexivity.
+  - destruct (c =? 39); rewrite IH; [|reflexivity].
+    destruct (odd_quotes a), (odd_quotes b); reflexivity.
+Qed.
+
+(* an even number of quotes, and no whitespace outside them *)
+Definition quiet (s : bytes) : Prop :=
+  odd_quotes s = false /\ Forall (fun b => is_ws b = false) (outside_quotes false s).
+
+Lemma quiet_app a b : quiet a -> quiet b -> quiet (a ++ b).
+Proof.
+  intros [Pa Qa] [Pb Qb]. split.
+  - rewrite odd_app, Pa, Pb. reflexivity.
+  - rewrite outside_app, Pa. cbn [xorb]. apply Forall_app. split; assumption.
+Qed.
+
+Lemma quiet_nil : quiet [].
+Proof. split; [reflexivity | constructor]. Qed.
+
+Lemma quiet_byte c : (c =? 39) = false -> is_ws c = false -> quiet [c].
+Proof.
+  intros H Hw. unfold quiet. cbn [odd_quotes outside_quotes]. rewrite H.
+  split; [reflexivity|]. repeat constructor. exact Hw.
+Qed.
+
+Lemma quiet_cons c s : (c =? 39) = false -> is_ws c = false -> quiet s -> quiet (c :: s).
+Proof. intros H Hw Hs. apply (quiet_app [c] s); [apply quiet_byte; assumption | exact Hs]. Qed.
+
+Lemma quiet_plain : forall w : list N, Forall (fun b => plain b = true) w -> quiet w.
+Proof.
+  induction w as [|c w IH]; intros H; [apply quiet_nil|].
+  inversion H as [|? ? Hc Hw]; subst. unfold plain in Hc.
+  rewrite !Bool.andb_true_iff, !Bool.negb_true_iff in Hc. destruct Hc as [[H39 _] Hws].
+  apply quiet_cons; [exact H39 | exact Hws | exact (IH Hw)].
+Qed.
+
+(* inside quotes everything is hidden; a doubled quote leaves and re-enters *)
+Lemma outside_dbl : forall s rest,
+  outside_quotes true (dbl_quotes s ++ rest) = outside_quotes true rest.
+Proof.
+  induction s as [|c r IH]; intros rest; [reflexivity|].
+  cbn [dbl_quotes]. destruct (c =? 39) eqn:E.
+  - cbn [app outside_quotes N.eqb Pos.eqb negb]. apply IH.
+  - cbn [app outside_quotes]. rewrite E. apply IH.
+Qed.
+
+Lemma odd_dbl : forall s, odd_quotes (dbl_quotes s) = false.
+Proof.
+  induction s as [|c r IH]; [reflexivity|].
+  cbn [dbl_quotes]. destruct (c =? 39) eqn:E.
+  - cbn [odd_quotes N.eqb Pos.eqb]. rewrite IH. reflexivity.
+  - cbn [odd_quotes]. rewrite E. exact IH.
+Qed.
+
+Lemma quiet_quoted s : quiet (39 :: dbl_quotes s ++ [39]).
+Proof.
+  split.
+  - cbn [odd_quotes N.eqb Pos.eqb]. rewrite odd_app, odd_dbl. reflexivity.
+  - cbn [outside_quotes N.eqb Pos.eqb negb]. rewrite outside_dbl.
+    cbn [outside_quotes N.eqb Pos.eqb negb]. constructor.
+Qed.
+
+Lemma quiet_name s : quiet (name_to_text s).
+Proof.
+  unfold name_to_text. destruct (existsb name_trigger s) eqn:E.
+  - apply quiet_quoted.
+  - apply quiet_plain. apply unquoted_text_plain. exact E.
+Qed.
+
+Lemma quiet_dist d : (is_zeroF d = false -> float_ok o d) ->
+  quiet (if is_zeroF d then [] else 58 :: fmtF o d).
+Proof.
+  intros H. destruct (is_zeroF d); [apply quiet_nil|].
+  destruct (H eq_refl) as (_ & _ & Hc).
+  apply quiet_cons; [reflexivity | reflexivity |].
+  apply quiet_plain. apply clean_delims_plain. exact Hc.
+Qed.
+
+Lemma quiet_text : forall t, floats_ok o t -> quiet (newick_text o t).
+Proof.
+  induction t as [nm d cs HF] using tree_ind'. intros Hok.
+  apply floats_ok_node in Hok. destruct Hok as [Hd Hcs].
+  assert (HQ : Forall (fun c => quiet (newick_text o c)) cs).
+  { rewrite Forall_forall in *. intros c Hc. apply (HF c Hc). apply (Hcs c Hc). }
+  destruct cs as [|c0 cr].
+  - rewrite newick_text_leaf. apply quiet_app; [apply quiet_name | apply quiet_dist; exact Hd].
+  - rewrite newick_text_inner. inversion HQ as [|? ? H0 HQ']; subst.
+    apply quiet_app; [|apply quiet_app; [apply quiet_name | apply quiet_dist; exact Hd]].
+    apply quiet_cons; [reflexivity | reflexivity |].
+    apply quiet_app; [exact H0|]. apply quiet_app; [|apply quiet_byte; reflexivity].
+    clear - HQ'. induction HQ' as [|c l Hc _ IH]; [apply quiet_nil|].
+    cbn [kids_rest]. apply quiet_cons; [reflexivity | reflexivity |].
+    apply quiet_app; assumption.
+Qed.
+
+Lemma marshal_condensed t : floats_ok o t ->
+  condensed (marshal o t) /\ last (marshal o t) 0 = 59.
+Proof.
+  intros Hok. split.
+  - unfold condensed, marshal.
+    apply (quiet_app _ [59] (quiet_text t Hok) (quiet_byte 59 eq_refl eq_refl)).
+  - unfold marshal. apply last_last.
+Qed.
+
+End Machine.
+
+(* ---- norm only touches negative zeros ------------------------------------------------ *)
+Lemma beqb_true : forall a b, beqb a b = true -> a = b.
+Proof.
+  induction a as [|x a IH]; destruct b as [|y b]; cbn [beqb]; intros H; try discriminate; [reflexivity|].
+  apply Bool.andb_true_iff in H. destruct H as [H1 H2]. apply N.eqb_eq in H1. subst.
+  f_equal. apply IH. exact H2.
+Qed.
+
+Lemma norm_dist_id d : d <> [45; 48] -> norm_dist d = d.
+Proof.
+  intros H. unfold norm_dist, is_zeroF. destruct (beqb d [48]) eqn:E1.
+  - apply beqb_true in E1. subst. reflexivity.
+  - destruct (beqb d [45; 48]) eqn:E2; [|reflexivity].
+    apply beqb_true in E2. contradiction.
+Qed.
+
+Lemma norm_id : forall t, Forall (fun d => d <> [45; 48]) (dists t) -> norm t = t.
+Proof.
+  induction t as [nm d cs HF] using tree_ind'. cbn [dists norm]. intros H.
+  inversion H as [|? ? Hd Hr]; subst. apply Forall_flat_map' in Hr.
+  rewrite (norm_dist_id d Hd). f_equal.
+  rewrite <- (map_id cs) at 2. apply map_ext_in. intros c Hc.
+  rewrite Forall_forall in HF, Hr. apply (HF c Hc). apply (Hr c Hc).
+Qed.
